@@ -1,26 +1,39 @@
 (* C16 — derived struct/paragraph conversions round-trip and update only own fields.
-   Statements only; proofs in proofs/DeriveP.v (which builds on proofs/LossyRtP.v).
+   Statements only; proofs in proofs/DeriveP.v (which builds on proofs/LossyRtP.v) and
+   proofs/DeriveExtP.v (which builds on the codec theorems of C18 and C14).
 
    Quantifier.  A struct is any list of field specs (key, the macro's syntactic Option test,
    serialiser id, deserialiser id): every shape the macro distinguishes.  A value is a list of
    optional universal values, [val_ok]: well typed and in the round-trip domain of each field's
    codec pair ([val_dom]: e.g. numbers below 2^bits, list items without the separator).  The
    paragraph back-end is ANY [ParaLike] satisfying [ParaLaws] (and [LayoutLaws] for the layout
-   clause); both real back-ends are instances (C16_lossy_backend, C16_lossless_backend).  External
-   codecs (url, chrono, debversion, lossy Relations, workspace enums/composites) are arbitrary
-   functions subject to [ext_rt_law].  Prior paragraphs for update: all of them.  The tables of the
-   shipped structs are regenerated from the Rust sources on every run (gen/Structs_gen.v) and checked
-   by computation (C16_tables).  No size bound anywhere: the proofs are inductions over the field list.
+   clause); both real back-ends are instances (C16_lossy_backend, C16_lossless_backend).  Prior
+   paragraphs for update: all of them.  The tables of the shipped structs are regenerated from the
+   Rust sources on every run (gen/Structs_gen.v) and checked by computation (C16_tables); the text of
+   the macro's templates is pinned by the translator (C16_macro_pinned).  No size bound anywhere:
+   the proofs are inductions over the field list.
 
-   Known class (known_findings.jsonl, pending fix proposed_fixes/C16-pdiffs-serializer.patch):
-   apt-sources Repository.pdiffs has deserialize_with = deserialize_yesno but the default
-   serialiser — [known_pdiffs]; its necessity is C16_pdiffs_class_witness.
-   (A second defect found by this cone's stream — apt-sources Signature key blocks gained a line
-   feed per round — was fixed in the repository meanwhile, 2e5530c; see C16_signature_fix_rt.) *)
+   External codecs.  The generic theorems (C16_roundtrip … C16_shipped) take the numbered codecs
+   SExt i / DExt i as arbitrary functions subject to [ext_rt_law].  C16_shipped_closed instantiates
+   them with the Coq models of the twelve codecs that are workspace code (model/DeriveExt.v:
+   Priority, MultiArch, YesNoForce, License, Signature, Forwarded, AppliedUpstream, DEP-3 Origin,
+   ParsedVcs, lossy Relations, buildinfo Environment, sources Types) and discharges the law for them
+   (C16_ext_law) on the validity predicates of the cones that own them; what REMAINS ASSUMED is
+   exactly: [version_rt_law] (debversion::Version: FromStr inverts Display on [vdom]) and
+   [other_rt_law] for 2 = url::Url, 14 = Vec<Url> (split_whitespace + Url), 15 = chrono::NaiveDate
+   with "%Y-%m-%d".
+
+   Known class (known_findings.jsonl `empty_list_split_newline`, pending
+   proposed_fixes/C16-empty-list-newline.patch): a Vec<String> field written by join("\n") and read
+   by split('\n') (apt::Source.package_list, FilesParagraph.copyright) does not read an EMPTY list
+   back ("" reads as [""]): the empty list is outside [val_dom] for the pair (SJoinNl, DSplitNl);
+   C16_empty_list_class shows the exclusion is exactly that one value and is necessary, and that the
+   patched reader (DSplitNlE) takes it.
+   Repaired meanwhile: apt-sources PDiffs serialiser (f9a3124), Signature key block (2e5530c). *)
 From Coq Require Import ZArith.
-From V.model Require Import Base Deb822Lex Deb822Parse Grammar Lossy Derive.
-From V.proofs Require Import LossyRtP DeriveP.
-From V.gen Require Import Structs_gen.
+From V.model Require Import Base Deb822Lex Deb822Parse Grammar Lossy CodecStr EnumTab Codecs Vcs RelLex RelLossy Derive DeriveExt.
+From V.proofs Require Import LossyRtP CodecsP VcsP DeriveP DeriveExtP.
+From V.gen Require Import Enums_gen Structs_gen.
 
 (* the full statement of the property for a struct table [s] (what C16_shipped proves for every
    generated struct outside the known class, over every back-end satisfying the laws) *)
@@ -30,36 +43,10 @@ Definition C16_full : Prop :=
   forall s, In s all_structs -> s_from s = true -> s_to s = true ->
   forall (v : list (option (uval E))), val_typed E ext_print (s_fields s) v ->
     exists p, to_paragraph E ext_print PL (s_fields s) v = Some p /\ from_paragraph E ext_parse PL (s_fields s) p = DOk v.
-(* C16_full quantifies over all TYPED values and all structs; it is false as long as the PDiffs pair is
-   defective (C16_pdiffs_class_witness) and, for every struct, outside the representable domain of a
-   codec (e.g. a list item containing the separator: C16_ex_domain_needed).  What is proved is the
-   same statement with [val_ok] (typed AND representable) outside [known_pdiffs]: C16_shipped. *)
-
-(* the narrow known class: the struct apt_sources_Repository while its PDiffs field pairs the default
-   bool serialiser with the yes/no deserialiser, everything else in the table being fine *)
-Definition is_pdiffs_defect (f : fieldspec) : bool :=
-  str_eqb (f_key f) [80; 68; 105; 102; 102; 115]%N &&
-  match f_ser f, f_de f with SBool, DYesNo => true | _, _ => false end.
-Definition repair_pdiffs (f : fieldspec) : fieldspec :=
-  if is_pdiffs_defect f then mk_fspec (f_key f) (f_opt f) SYesNo DYesNo else f.
-Definition known_pdiffs (s : structspec) : bool :=
-  str_eqb (s_id s) [97; 112; 116; 95; 115; 111; 117; 114; 99; 101; 115; 95; 82; 101; 112; 111; 115; 105; 116; 111; 114; 121]%N &&
-  existsb is_pdiffs_defect (s_fields s) &&
-  ok_struct (mk_sspec (s_id s) (s_from s) (s_to s) (s_eq s) (map repair_pdiffs (s_fields s))).
-
-(* witness for the class, computed from the table itself: pdiffs = Some(true), the other optional fields
-   absent, mandatory fields at a default value; external fields hold the text "x", which the witness
-   table accepts *)
-Definition default_uval (s : ser_id) : option (uval str) :=
-  match s with
-  | SStr => Some (VStr []) | SBool | SYesNo | SJaNee => Some (VBool true)
-  | SNum => Some (VNum 0) | SInt => Some (VInt 0%Z) | SJoinWs | SJoinNl => Some (VList [])
-  | SExt _ => Some (VExt [120%N]) | SUnrecognised => None
-  end.
-Definition pdiffs_witness_value (fs : list fieldspec) : list (option (uval str)) :=
-  map (fun f => if is_pdiffs_defect f then Some (VBool true) else if f_opt f then None else default_uval (f_ser f)) fs.
-Definition pdiffs_witness_table (fs : list fieldspec) : ext_table :=
-  flat_map (fun f => match f_de f with DExt i => [(i, [120%N], Some [120%N])] | _ => [] end) fs.
+(* C16_full quantifies over all TYPED values of all generated structs; it is false outside the
+   representable domain of a codec (e.g. a list item containing the separator: C16_ex_domain_needed; the
+   empty list of a join("\n")/split('\n') field: C16_empty_list_class).  What is proved is the same
+   statement with [val_ok] (typed AND representable): C16_shipped, C16_shipped_closed. *)
 
 (* every (serialiser, deserialiser) pair of the catalogue inverts on its value domain; external codecs by assumption ext_rt_law *)
 Theorem C16_codec_rt : forall (E : Type) (ext_print : N -> E -> str) (ext_parse : N -> str -> option E) (ext_dom : N -> E -> Prop) s d (v : uval E),
@@ -290,17 +277,17 @@ Check C16_lossless_remove_first_only_refuted : let p := ll_of_list [([65], [49])
   ll_get (ll_remove LlRemoveFirst p [65%N]) [65%N] = Some [50%N].
 Print Assumptions C16_lossless_remove_first_only_refuted.
 
-(* every generated struct table (regenerated from the Rust sources on each run) outside the known class passes the decidable check: distinct keys, recognised functions, every (ser, de) pair an inverse pair *)
-Theorem C16_tables : forall s, In s all_structs -> known_pdiffs s = false ->
+(* every generated struct table (regenerated from the Rust sources on each run) passes the decidable check: distinct keys, recognised functions, every (ser, de) pair an inverse pair *)
+Theorem C16_tables : forall s, In s all_structs ->
   ok_struct s = true /\ NoDup (map f_key (s_fields s)) /\
   (s_from s = true -> s_to s = true -> Forall (fun f => rt_pair (f_ser f) (f_de f) = true) (s_fields s)) /\
   Forall (fun f => (s_to s = true -> f_ser f <> SUnrecognised) /\ (s_from s = true -> f_de f <> DUnrecognised)) (s_fields s).
 Proof.
-  assert (Hall : forallb (fun s => ok_struct s || known_pdiffs s) all_structs = true) by (vm_compute; reflexivity).
-  intros s Hin Hk. rewrite forallb_forall in Hall. specialize (Hall s Hin). rewrite Hk, orb_false_r in Hall.
+  assert (Hall : forallb ok_struct all_structs = true) by (vm_compute; reflexivity).
+  intros s Hin. rewrite forallb_forall in Hall. specialize (Hall s Hin).
   split; [exact Hall|]. split; [apply ok_struct_nodup; exact Hall|]. split; [apply ok_struct_pairs; exact Hall|apply ok_struct_recognised; exact Hall].
 Qed.
-Check C16_tables : forall s, In s all_structs -> known_pdiffs s = false ->
+Check C16_tables : forall s, In s all_structs ->
   ok_struct s = true /\ NoDup (map f_key (s_fields s)) /\
   (s_from s = true -> s_to s = true -> Forall (fun f => rt_pair (f_ser f) (f_de f) = true) (s_fields s)) /\
   Forall (fun f => (s_to s = true -> f_ser f <> SUnrecognised) /\ (s_from s = true -> f_de f <> DUnrecognised)) (s_fields s).
@@ -316,9 +303,9 @@ Check C16_pairs_inhabited : forall (E : Type) (ext_dom : N -> E -> Prop) s d,
   rt_pair s d = true -> (forall i, exists e, ext_dom i e) -> exists v : uval E, val_dom E ext_dom s d v.
 Print Assumptions C16_pairs_inhabited.
 
-(* the headline instance: for every deriving struct of the workspace (and the test structs) outside the known class, any back-end, any representable value *)
+(* the headline instance, codecs abstract: for every deriving struct of the workspace (and the test structs), any back-end, any representable value *)
 Theorem C16_shipped : forall (E : Type) (ext_print : N -> E -> str) (ext_parse : N -> str -> option E) (ext_dom : N -> E -> Prop) (PL : ParaLike), ParaLaws PL -> ext_rt_law E ext_print ext_parse ext_dom ->
-  forall s, In s all_structs -> known_pdiffs s = false ->
+  forall s, In s all_structs ->
   forall (v : list (option (uval E))), val_ok E ext_dom (s_fields s) v ->
   (exists p, to_paragraph E ext_print PL (s_fields s) v = Some p /\
              from_paragraph E ext_parse PL (s_fields s) p = DOk v /\
@@ -327,13 +314,13 @@ Theorem C16_shipped : forall (E : Type) (ext_print : N -> E -> str) (ext_parse :
              from_paragraph E ext_parse PL (s_fields s) p' = DOk v /\
              not_owned_items (s_fields s) (pl_items PL p') = not_owned_items (s_fields s) (pl_items PL p)).
 Proof.
-  intros E ep epa ed PL HL Hext s Hin Hk v Hv. destruct (C16_tables s Hin Hk) as (_ & Hnd & _).
+  intros E ep epa ed PL HL Hext s Hin v Hv. destruct (C16_tables s Hin) as (_ & Hnd & _).
   split.
   - destruct (derive_rt_order E ep epa ed PL HL _ _ Hext Hnd Hv) as (p & H1 & H2 & _ & H4). exists p. auto.
   - intros p. destruct (derive_update E ep epa ed PL HL _ _ p Hext Hnd Hv) as (p' & H1 & H2 & _ & H4 & _). exists p'. auto.
 Qed.
 Check C16_shipped : forall (E : Type) (ext_print : N -> E -> str) (ext_parse : N -> str -> option E) (ext_dom : N -> E -> Prop) (PL : ParaLike), ParaLaws PL -> ext_rt_law E ext_print ext_parse ext_dom ->
-  forall s, In s all_structs -> known_pdiffs s = false ->
+  forall s, In s all_structs ->
   forall (v : list (option (uval E))), val_ok E ext_dom (s_fields s) v ->
   (exists p, to_paragraph E ext_print PL (s_fields s) v = Some p /\
              from_paragraph E ext_parse PL (s_fields s) p = DOk v /\
@@ -343,41 +330,125 @@ Check C16_shipped : forall (E : Type) (ext_print : N -> E -> str) (ext_parse : N
              not_owned_items (s_fields s) (pl_items PL p') = not_owned_items (s_fields s) (pl_items PL p)).
 Print Assumptions C16_shipped.
 
-(* the known class is necessary: while apt-sources' PDiffs field has deserialize_yesno but the default serialiser, Some(true) prints as `true`, which its own reader rejects with `parsing field PDiffs` (when the struct is fixed the class is empty and this is trivially True) *)
-Theorem C16_pdiffs_class_witness : match find known_pdiffs all_structs with
-  | None => True
-  | Some s => exists p,
-      x_to_lossy (s_fields s) (pdiffs_witness_value (s_fields s)) = Some p /\
-      x_from_lossy (pdiffs_witness_table (s_fields s)) (s_fields s) p = DErr (Parsing [80; 68; 105; 102; 102; 115]%N)
-  end.
+(* ------------------------------------------------------------------ the external codecs of the shipped structs *)
+(* the law the generic theorems assume, for the codecs that are workspace code: from the theorems of the cones that own
+   them (C18: CodecsP/VcsP/EnumTabP; C14: RelLossyP) and, for Environment / Types, DeriveExtP; the generated keyword
+   tables and the Signature flag enter by computation *)
+Theorem C16_ext_law : forall (V : Type) (vparse : str -> option V) (vprint : V -> str) (vdom : V -> Prop)
+  (X : Type) (xparse : N -> str -> option X) (xprint : N -> X -> str) (xdom : N -> X -> Prop),
+  version_rt_law V vparse vprint vdom -> other_rt_law X xparse xprint xdom ->
+  ext_rt_law (cval V X) (c_print V vprint X xprint) (c_parse V vparse X xparse) (c_dom V vparse vprint vdom X xdom).
 Proof.
-  vm_compute. first [exact I | (eexists; split; reflexivity)].
+  exact shipped_ext_rt_law.
 Qed.
-Check C16_pdiffs_class_witness : match find known_pdiffs all_structs with
-  | None => True
-  | Some s => exists p,
-      x_to_lossy (s_fields s) (pdiffs_witness_value (s_fields s)) = Some p /\
-      x_from_lossy (pdiffs_witness_table (s_fields s)) (s_fields s) p = DErr (Parsing [80; 68; 105; 102; 102; 115]%N)
-  end.
-Print Assumptions C16_pdiffs_class_witness.
+Check C16_ext_law : forall (V : Type) (vparse : str -> option V) (vprint : V -> str) (vdom : V -> Prop)
+  (X : Type) (xparse : N -> str -> option X) (xprint : N -> X -> str) (xdom : N -> X -> Prop),
+  version_rt_law V vparse vprint vdom -> other_rt_law X xparse xprint xdom ->
+  ext_rt_law (cval V X) (c_print V vprint X xprint) (c_parse V vparse X xparse) (c_dom V vparse vprint vdom X xdom).
+Print Assumptions C16_ext_law.
 
-(* the same at the codec level, for both booleans *)
-Theorem C16_pdiffs_pair_refuted : forall (E : Type) (ext_print : N -> E -> str) (ext_parse : N -> str -> option E) b,
-  exists t, ser E ext_print SBool (VBool b) = Some t /\ de E ext_parse DYesNo t = None.
+(* what the two remaining premises say, spelled out (so that the statement below can be read on its own) *)
+Theorem C16_remaining_assumptions : forall (V : Type) (vparse : str -> option V) (vprint : V -> str) (vdom : V -> Prop)
+  (X : Type) (xparse : N -> str -> option X) (xprint : N -> X -> str) (xdom : N -> X -> Prop),
+  (version_rt_law V vparse vprint vdom <-> (forall v, vdom v -> vparse (vprint v) = Some v)) /\
+  (other_rt_law X xparse xprint xdom <->
+   (forall i x, (i = 2%N \/ i = 14%N \/ i = 15%N) -> xdom i x -> xparse i (xprint i x) = Some x)).
 Proof.
-  exact bool_yesno_pair_refuted.
+  intros. split; reflexivity.
 Qed.
-Check C16_pdiffs_pair_refuted : forall (E : Type) (ext_print : N -> E -> str) (ext_parse : N -> str -> option E) b,
-  exists t, ser E ext_print SBool (VBool b) = Some t /\ de E ext_parse DYesNo t = None.
-Print Assumptions C16_pdiffs_pair_refuted.
+Check C16_remaining_assumptions : forall (V : Type) (vparse : str -> option V) (vprint : V -> str) (vdom : V -> Prop)
+  (X : Type) (xparse : N -> str -> option X) (xprint : N -> X -> str) (xdom : N -> X -> Prop),
+  (version_rt_law V vparse vprint vdom <-> (forall v, vdom v -> vparse (vprint v) = Some v)) /\
+  (other_rt_law X xparse xprint xdom <->
+   (forall i x, (i = 2%N \/ i = 14%N \/ i = 15%N) -> xdom i x -> xparse i (xprint i x) = Some x)).
+Print Assumptions C16_remaining_assumptions.
 
-(* apt-sources Signature (an external codec for the theorems above) written out: since 2e5530c FromStr drops the empty first line Display writes, and every Signature except a key PATH containing a line feed reads back (before that fix each round added a line feed: DeriveP.sig_keep_refuted) *)
-Theorem C16_signature_fix_rt : forall v, (forall p, v = KeyPath p -> has_lf p = false) -> sig_parse_strip (sig_print v) = v.
+(* THE headline instance: every deriving struct of the workspace (and the test structs), any back-end, the codecs of
+   the workspace at their models; the only premises left are the laws of debversion::Version, url::Url (single and
+   white-space separated list) and chrono::NaiveDate *)
+Theorem C16_shipped_closed : forall (V : Type) (vparse : str -> option V) (vprint : V -> str) (vdom : V -> Prop)
+  (X : Type) (xparse : N -> str -> option X) (xprint : N -> X -> str) (xdom : N -> X -> Prop) (PL : ParaLike),
+  ParaLaws PL -> version_rt_law V vparse vprint vdom -> other_rt_law X xparse xprint xdom ->
+  forall s, In s all_structs ->
+  forall (v : list (option (uval (cval V X)))), val_ok (cval V X) (c_dom V vparse vprint vdom X xdom) (s_fields s) v ->
+  (exists p, to_paragraph (cval V X) (c_print V vprint X xprint) PL (s_fields s) v = Some p /\
+             from_paragraph (cval V X) (c_parse V vparse X xparse) PL (s_fields s) p = DOk v /\
+             map fst (pl_items PL p) = present_keys (cval V X) (s_fields s) v) /\
+  (forall p, exists p', update_paragraph (cval V X) (c_print V vprint X xprint) PL (s_fields s) v p = Some p' /\
+             from_paragraph (cval V X) (c_parse V vparse X xparse) PL (s_fields s) p' = DOk v /\
+             not_owned_items (s_fields s) (pl_items PL p') = not_owned_items (s_fields s) (pl_items PL p)).
 Proof.
-  exact sig_strip_rt.
+  intros V vpa vpr vd X xpa xpr xd PL HL Hv Hx s Hin v Hok.
+  exact (C16_shipped _ _ _ _ PL HL (shipped_ext_rt_law V vpa vpr vd X xpa xpr xd Hv Hx) s Hin v Hok).
 Qed.
-Check C16_signature_fix_rt : forall v, (forall p, v = KeyPath p -> has_lf p = false) -> sig_parse_strip (sig_print v) = v.
-Print Assumptions C16_signature_fix_rt.
+Check C16_shipped_closed : forall (V : Type) (vparse : str -> option V) (vprint : V -> str) (vdom : V -> Prop)
+  (X : Type) (xparse : N -> str -> option X) (xprint : N -> X -> str) (xdom : N -> X -> Prop) (PL : ParaLike),
+  ParaLaws PL -> version_rt_law V vparse vprint vdom -> other_rt_law X xparse xprint xdom ->
+  forall s, In s all_structs ->
+  forall (v : list (option (uval (cval V X)))), val_ok (cval V X) (c_dom V vparse vprint vdom X xdom) (s_fields s) v ->
+  (exists p, to_paragraph (cval V X) (c_print V vprint X xprint) PL (s_fields s) v = Some p /\
+             from_paragraph (cval V X) (c_parse V vparse X xparse) PL (s_fields s) p = DOk v /\
+             map fst (pl_items PL p) = present_keys (cval V X) (s_fields s) v) /\
+  (forall p, exists p', update_paragraph (cval V X) (c_print V vprint X xprint) PL (s_fields s) v p = Some p' /\
+             from_paragraph (cval V X) (c_parse V vparse X xparse) PL (s_fields s) p' = DOk v /\
+             not_owned_items (s_fields s) (pl_items PL p') = not_owned_items (s_fields s) (pl_items PL p)).
+Print Assumptions C16_shipped_closed.
+
+(* the domains of the discharged codecs are inhabited at every codec number a shipped struct uses (no vacuity) *)
+Theorem C16_ext_dom_inhabited : forall (V : Type) (vparse : str -> option V) (vprint : V -> str) (vdom : V -> Prop)
+  (X : Type) (xdom : N -> X -> Prop) i,
+  In i [3; 4; 5; 6; 7; 8; 9; 10; 11; 12; 13; 16]%N -> exists c : cval V X, c_dom V vparse vprint vdom X xdom i c.
+Proof.
+  intros V vpa vpr vd X xd i Hi. cbn [In] in Hi.
+  destruct Hi as [<-|[<-|[<-|[<-|[<-|[<-|[<-|[<-|[<-|[<-|[<-|[<-|[]]]]]]]]]]]]].
+  - exists (CRelations []). split; [reflexivity|constructor].
+  - exists (CEnum 0). eexists. split; [reflexivity|vm_compute; reflexivity].
+  - exists (CEnum 0). eexists. split; [reflexivity|vm_compute; reflexivity].
+  - exists (CLicense (LName [])). split; reflexivity.
+  - exists (CSignature (KeyBlock [])). split; reflexivity.
+  - exists (CEnum 0). eexists. split; [reflexivity|vm_compute; reflexivity].
+  - exists (CForwarded FwNo). split; reflexivity.
+  - exists (CApplied (Commit [])). split; reflexivity.
+  - exists (CVcs {| repo_url := [117%N]; branch := Some [98%N]; subpath := Some [112%N] |}). split; [reflexivity|vm_compute; reflexivity].
+  - exists (CEnv [([65%N], [49%N]); ([66%N], [])]). split; [reflexivity|vm_compute; reflexivity].
+  - exists (CTypes [0; 1]%N). split; [reflexivity|vm_compute; auto].
+  - exists (COrigin (Some 2%N) (Commit [97%N])). split; [reflexivity|vm_compute; reflexivity].
+Qed.
+Check C16_ext_dom_inhabited : forall (V : Type) (vparse : str -> option V) (vprint : V -> str) (vdom : V -> Prop)
+  (X : Type) (xdom : N -> X -> Prop) i,
+  In i [3; 4; 5; 6; 7; 8; 9; 10; 11; 12; 13; 16]%N -> exists c : cval V X, c_dom V vparse vprint vdom X xdom i c.
+Print Assumptions C16_ext_dom_inhabited.
+
+(* the text of the macro (deb822-derive/src/lib.rs: the twelve quote! templates, fn is_option, and the lines that choose
+   between the templates) is the text model/Derive.v was transcribed from — compared by translate/structs.py on every run *)
+Theorem C16_macro_pinned : macro_templates_pinned = true.
+Proof.
+  vm_compute. reflexivity.
+Qed.
+Check C16_macro_pinned : macro_templates_pinned = true.
+Print Assumptions C16_macro_pinned.
+
+(* the known class `empty_list_split_newline`: for a list field written by join("\n") and read by split('\n') the domain
+   excludes exactly the empty list (given items without LF), the exclusion is necessary (the empty list prints as "" and
+   reads back as the list holding one empty string), and the patched reader DSplitNlE reads it back *)
+Theorem C16_empty_list_class : forall (E : Type) (ext_print : N -> E -> str) (ext_parse : N -> str -> option E) (ext_dom : N -> E -> Prop),
+  (forall l, forallb no_lf l = true -> (val_dom E ext_dom SJoinNl DSplitNl (VList l) <-> l <> [])) /\
+  (exists t, ser E ext_print SJoinNl (VList []) = Some t /\ de E ext_parse DSplitNl t = Some (VList [[]])) /\
+  (exists t, ser E ext_print SJoinNl (VList []) = Some t /\ de E ext_parse DSplitNlE t = Some (VList [])) /\
+  val_dom E ext_dom SJoinNl DSplitNlE (VList []).
+Proof.
+  intros E ep epa ed. split; [|split; [|split]].
+  - intros l Hl. cbn [val_dom]. split; [intros [H _]; exact H|intros H; split; [exact H|exact Hl]].
+  - eexists. split; reflexivity.
+  - eexists. split; reflexivity.
+  - cbn [val_dom]. split; [reflexivity|discriminate].
+Qed.
+Check C16_empty_list_class : forall (E : Type) (ext_print : N -> E -> str) (ext_parse : N -> str -> option E) (ext_dom : N -> E -> Prop),
+  (forall l, forallb no_lf l = true -> (val_dom E ext_dom SJoinNl DSplitNl (VList l) <-> l <> [])) /\
+  (exists t, ser E ext_print SJoinNl (VList []) = Some t /\ de E ext_parse DSplitNl t = Some (VList [[]])) /\
+  (exists t, ser E ext_print SJoinNl (VList []) = Some t /\ de E ext_parse DSplitNlE t = Some (VList [])) /\
+  val_dom E ext_dom SJoinNl DSplitNlE (VList []).
+Print Assumptions C16_empty_list_class.
 
 (* ------------------------------------------------------------------ non-vacuity *)
 (* a struct covering the shapes the macro distinguishes: mandatory/optional, renamed key, custom and
